@@ -466,6 +466,13 @@ func rsAbstractRollout(ro *v1beta1.Rollout, in rsRollout, hash string) rsRollout
 func rsPhaseStr(p string) string { return p }
 
 func rsRun(in0 rsWorld) interface{} {
+	out, _, _, _ := rsRunF(in0, 0)
+	return out
+}
+
+// rsRunF: one real Reconcile; failN > 0 makes the failN-th API call of the reconcile (reads included) fail.
+// Returns the usual output, the number of API calls the reconcile made, the failed call ("" if none) and its writes.
+func rsRunF(in0 rsWorld, failN int) (J, int, string, []string) {
 	in := rsdConcretise(in0) // canary-style worlds: revision names become the pod-template hashes the finder reports
 	ro, hash := rsBuildRollout(in.Ro)
 	objs := []client.Object{ro}
@@ -483,7 +490,10 @@ func rsRun(in0 rsWorld) interface{} {
 	old := rolloutctl.VerifSetGracePeriodSeconds(trLongGrace)
 	defer rolloutctl.VerifSetGracePeriodSeconds(old)
 	rec := rolloutctl.VerifNewReconciler(netCli, theScheme)
+	netCli.Calls, netCli.FailCallN, netCli.FaultHit = 0, failN, ""
 	res, err := rec.Reconcile(context.TODO(), ctrl.Request{NamespacedName: types.NamespacedName{Namespace: trNS, Name: "r"}})
+	netCli.FailCallN = 0
+	calls, hit := netCli.Calls, netCli.FaultHit
 	out := J{"requeue": res.RequeueAfter > 0 || res.Requeue, "err": err != nil}
 	if finderDiff != "" {
 		out["finderMismatch"] = finderDiff // the concretised workload is not the generated one: shows up as a difference
@@ -523,11 +533,46 @@ func rsRun(in0 rsWorld) interface{} {
 		if r.Err {
 			continue
 		}
-		writes = append(writes, r.Verb+" "+r.Kind)
+		writes = append(writes, r.Verb+" "+r.Kind+" "+r.Key)
 	}
-	_ = writes
 	grace.ResetExpectations()
-	return out
+	return out, calls, hit, writes
+}
+
+// rsFaults: C06 at the level of one Rollout reconcile, judged on the implementation alone (the one-step model has no
+// fault parameter): the same world is reconciled once undisturbed and then once per chosen call index k with the k-th API
+// call (a read or a write) failing.  Emitted per k: whether the failure was reported (error returned = the request is
+// retried), and the writes of the disturbed reconcile next to those of the undisturbed one.
+func rsFaults(c *Ctx, in rsWorld, all bool) {
+	var calls int
+	var baseWrites []string
+	var base J
+	if r := guard(func() interface{} {
+		o, n, _, w := rsRunF(in, 0)
+		base, calls, baseWrites = o, n, w
+		return nil
+	}); r != nil {
+		return // the undisturbed reconcile panics: that is the reconcile op's business
+	}
+	if calls == 0 || base["err"] == true {
+		return
+	}
+	ks := []int{}
+	if all || calls <= 3 {
+		for k := 1; k <= calls; k++ {
+			ks = append(ks, k)
+		}
+	} else {
+		ks = append(ks, 1+c.Rng.Intn(calls), 1+c.Rng.Intn(calls), calls)
+	}
+	for _, k := range ks {
+		k := k
+		impl := guard(func() interface{} {
+			o, _, hit, w := rsRunF(in, k)
+			return J{"err": o["err"], "requeue": o["requeue"], "hit": hit, "writes": w, "baseWrites": baseWrites, "calls": calls}
+		})
+		c.Emit("fault", J{"w": in, "k": k}, impl)
+	}
 }
 
 func rsCase(c *Ctx, in rsWorld) {
@@ -723,11 +768,33 @@ func genRolloutWorld(c *Ctx) rsWorld {
 
 func runRolloutSM(c *Ctx) {
 	for i := 0; i < c.N; i++ {
-		rsCase(c, genRolloutWorld(c))
+		w := genRolloutWorld(c)
+		rsCase(c, w)
+		if i%6 == 0 {
+			rsFaults(c, w, c.Thorough() && i%30 == 0)
+		}
 	}
 }
 
 func replayRolloutSM(c *Ctx, op string, raw json.RawMessage) {
+	if op == "fault" {
+		var f struct {
+			W rsWorld `json:"w"`
+			K int     `json:"k"`
+		}
+		if err := json.Unmarshal(raw, &f); err != nil {
+			panic(err)
+		}
+		var calls int
+		var baseWrites []string
+		_ = guard(func() interface{} { _, calls, _, baseWrites = rsRunF(f.W, 0); return nil })
+		impl := guard(func() interface{} {
+			o, _, hit, w := rsRunF(f.W, f.K)
+			return J{"err": o["err"], "requeue": o["requeue"], "hit": hit, "writes": w, "baseWrites": baseWrites, "calls": calls}
+		})
+		c.Emit("fault", J{"w": f.W, "k": f.K}, impl)
+		return
+	}
 	var in rsWorld
 	if err := json.Unmarshal(raw, &in); err != nil {
 		panic(err)
